@@ -77,6 +77,34 @@ def fn(ck, a):
                 origin.append((seed, i))
                 for c in w["cmds"].values():
                     ck.note_case((c["act"], c["uid"], c["status"], len(w["cmds"])))
+        # 2b. every admission recorded on the real server against the admission rules (spec/SchedRules.tla)
+        sched, sorigin = [], []
+        for seed, ws, stats, err in res:
+            for r_ in stats.get("sched", []):
+                if "error" in r_:
+                    raise RuntimeError(f"admission record failed (seed {seed}): {r_['error']}")
+                sched.append({k: r_[k] for k in ("k", "peek", "nums", "hasdel", "live", "ans")})
+                sorigin.append((seed, r_))
+        if sched:
+            p = os.path.join(tmp, "sched.json")
+            json.dump(sched, open(p, "w"))
+            rs = tlc.run("TraceSched", "SPECIFICATION Spec\nCHECK_DEADLOCK FALSE\n", env={"TRACE_FILE": p},
+                         workers=1, timeout=3000)
+            if rs.rc != 0:
+                raise RuntimeError(f"TraceSched failed: {rs.error}")
+            if not any(pr and pr[0] == "DONE" and pr[1] == len(sched) for pr in rs.prints):
+                raise RuntimeError("TraceSched did not consume every admission record")
+            ck.cov["admission_decisions_validated"] = len(sched)
+            ck.cov["admission_decisions_with_running_commands"] = sum(1 for x in sched if x["live"])
+            ck.cov["admission_decisions_refused"] = sum(1 for x in sched if x["ans"])
+            ck.cov["admitted_next_to_command_the_reverse_order_would_exclude"] = sum(1 for pr in rs.prints if pr and pr[0] == "ASYM")
+            ck.cov["states"] += rs.distinct
+            ck.cov["transitions"] += rs.generated
+            for pr in rs.prints:
+                if pr and pr[0] == "RULE":
+                    seed, r_ = sorigin[pr[1] - 1]
+                    ck.model_drift("Admit", "would_conflict", f"seed {seed}: the code answered {r_['ans']} where the transcribed "
+                                   "rule (spec/SchedRules.tla ConflictsRec) says the opposite: " + json.dumps(r_)[:220])
         # 3. TLC searches a sequential explanation of every window
         # windows are grouped by their number of sessions (a constant of the specification)
         order = sorted(range(len(wins)), key=lambda i: wins[i].get("nsess", 3))
